@@ -42,4 +42,75 @@ theorem resetThreshold_eq (d : Int) :
 
 example : Translated.deriveJailSentence 60000000000 = 300000000000 := by decide
 
+
+/-! ### the inactivity sweep -/
+
+open Paloma.Gen.Translated Paloma.KeepAlive
+
+theorem translated_JailInactiveValidators : translated "x/valset/keeper.Keeper.JailInactiveValidators" = true := by decide
+/-- the sweep hands a validator to `Jail` exactly when it is bonded or unbonding, not alive, out of its grace period and not jailed -/
+def handed (v : SweepVal) : Bool := v.active && !v.alive && !v.inGrace && !v.jailed
+
+/-- no collaborator fails for this validator (`ErrValidatorNotInKeepAlive` is not a failure: such a validator is simply not alive) -/
+def clean (v : SweepVal) : Prop := v.addrErr = false ∧ (v.aliveErr = 0 ∨ v.aliveErr = 1) ∧ v.jailedErr = false
+
+theorem sweep_loop_spec (vals : List SweepVal) (l : List SweepVal) (hc : ∀ v ∈ l, clean v) :
+    ∀ (err : Nat) (coll jn : List Nat), ∃ e,
+      jailInactiveValidators_loop1 vals err coll jn l = .ok (e, coll, jn ++ (l.filter handed).map (·.id)) := by
+  induction l with
+  | nil => intro err coll jn; exact ⟨err, by simp [jailInactiveValidators_loop1]⟩
+  | cons v rest ih =>
+    intro err coll jn
+    obtain ⟨ha, hal, hj⟩ := hc v (by simp)
+    have ih' := ih (fun x hx => hc x (by simp [hx]))
+    obtain ⟨id, active, addrErr, aliveErr, alive, inGrace, jailedErr, jailed⟩ := v
+    simp only at ha hal hj
+    subst ha hj
+    rw [jailInactiveValidators_loop1]
+    rcases hal with h0 | h1
+    · subst h0
+      cases active <;> cases alive <;> cases inGrace <;> cases jailed <;>
+        simp only [Id.run, List.filter_cons, handed] <;>
+        first
+          | (simpa [List.append_assoc] using ih' err coll jn)
+          | (simpa [List.append_assoc] using ih' 0 coll jn)
+          | (simpa [List.append_assoc] using ih' 0 coll (jn ++ [id]))
+    · subst h1
+      cases active <;> cases alive <;> cases inGrace <;> cases jailed <;>
+        simp only [Id.run, List.filter_cons, handed] <;>
+        first
+          | (simpa [List.append_assoc] using ih' err coll jn)
+          | (simpa [List.append_assoc] using ih' 1 coll jn)
+          | (simpa [List.append_assoc] using ih' 0 coll jn)
+          | (simpa [List.append_assoc] using ih' 0 coll (jn ++ [id]))
+
+/-- C12 `JailInactiveValidators`: with no collaborator failing, the validators handed to `Jail` are, in list order, exactly the
+    bonded / unbonding ones that are not alive, out of grace and not jailed -/
+theorem jailInactiveValidators_eq (l : List SweepVal) (hc : ∀ v ∈ l, clean v) :
+    jailInactiveValidators l = .swept ((l.filter handed).map (·.id)) := by
+  obtain ⟨e, he⟩ := sweep_loop_spec l l hc 0 [] []
+  simp [jailInactiveValidators, Id.run, he]
+
+/-- what the sweep reads about validator `v` in state `s` at height `h` -/
+def viewOf (s : St) (h : Int) (id : Nat) (v : Val) : SweepVal :=
+  { id := id, active := (v.status == .bonded || v.status == .unbonding), addrErr := false, aliveErr := 0,
+    alive := isAlive s v.addr h, inGrace := inGrace s v.addr h, jailedErr := false, jailed := isJailed s v.addr }
+
+/-- C12: one round of the model's sweep jails the validator exactly when the translated loop hands it to `Jail` -/
+theorem sweepStep_eq_handed (s : St) (h t : Int) (id : Nat) (v : Val) :
+    sweepStep h t s v = if handed (viewOf s h id v) then (jail s t v.addr).1 else s := by
+  unfold sweepStep handed viewOf
+  cases (v.status == .bonded || v.status == .unbonding) <;> cases isAlive s v.addr h <;> cases inGrace s v.addr h <;>
+    cases isJailed s v.addr <;> simp
+
+/-- a responsive validator, one in its grace period, a jailed one and an unbonded one are never handed to `Jail` -/
+theorem never_handed (v : SweepVal) (h : v.alive = true ∨ v.inGrace = true ∨ v.jailed = true ∨ v.active = false) : handed v = false := by
+  unfold handed
+  rcases h with h | h | h | h <;> simp [h]
+
+/-- non-vacuity: of four unjailed validators — responsive, silent, silent but in grace, silent but unbonded — the sweep hands
+    over the second only -/
+example : jailInactiveValidators [⟨1, true, false, 0, true, false, false, false⟩, ⟨2, true, false, 1, false, false, false, false⟩,
+    ⟨3, true, false, 0, false, true, false, false⟩, ⟨4, false, false, 0, false, false, false, false⟩] = .swept [2] := by decide
+
 end Paloma.TranslatedTie
